@@ -16,6 +16,14 @@ var VerifYieldHook func(site string)
 // VerifLockHook is called immediately before a connection mutex is acquired.
 var VerifLockHook func(mu *sync.Mutex)
 
+// VerifPoolLockHook is called immediately before the pool's lock is acquired (write tells whether for
+// writing).
+var VerifPoolLockHook func(mu *sync.RWMutex, write bool)
+
+// VerifResetLockHook is called (with the pool lock held) immediately before the mutex of a recycled
+// connection object is acquired to reset it.
+var VerifResetLockHook func(mu *sync.Mutex)
+
 // VerifOrderHook receives the keys of the connections a flush is about to walk (sorted) and
 // returns the order (a permutation of indices) in which to walk them. Map iteration order is
 // unspecified, so every order is a legal behaviour of the untagged code.
@@ -24,6 +32,18 @@ var VerifOrderHook func(keys []string) []int
 func verifYield(site string) {
 	if h := VerifYieldHook; h != nil {
 		h(site)
+	}
+}
+
+func verifBeforeResetLock(mu *sync.Mutex) {
+	if h := VerifResetLockHook; h != nil {
+		h(mu)
+	}
+}
+
+func verifBeforePoolLock(mu *sync.RWMutex, write bool) {
+	if h := VerifPoolLockHook; h != nil {
+		h(mu, write)
 	}
 }
 
